@@ -15,7 +15,8 @@ ASSUMPTIONS = ["reference integrator (memserver.py): client.check_redirect_uri i
                "Flask / Django integrations are not driven (core server only)"]
 
 CLIENTS = [
-    {"id": "c1", "secret": "s1", "uris": ["https://good/cb", "https://good/cb2?keep=1&x=a+b"], "response_types": ms.ALL_RESPONSE_TYPES, "method": "client_secret_basic"},
+    {"id": "c1", "secret": "s1", "uris": ["https://good/cb", "https://good/cb2?keep=1&x=a+b", "https://good/cb3?legacy=&native&tenant=acme"], "response_types": ms.ALL_RESPONSE_TYPES,
+     "method": "client_secret_basic"},
     {"id": "p1", "secret": "", "uris": ["https://pub/cb", "https://pub/other"], "response_types": ms.ALL_RESPONSE_TYPES, "method": "none"},
     {"id": "nouri", "secret": "", "uris": [], "response_types": ms.ALL_RESPONSE_TYPES, "method": "none"},
     {"id": "tokonly", "secret": "", "uris": ["https://tok/cb"], "response_types": ["token"], "method": "none"},
@@ -24,7 +25,7 @@ CLIENTS = [
 RTS = ["code", "token", "id_token", "id_token token", "token id_token", "code id_token", "id_token code", "code token", "code id_token token", "token code id_token",
        "bogus", "", None, "code code", "code\tid_token"]
 CIDS = ["c1", "p1", "nouri", "tokonly", "codeonly", "unknown", "", None]
-URIS = [None, "", "https://good/cb", "https://good/cb2?keep=1&x=a+b", "https://pub/cb", "https://pub/other", "https://tok/cb", "https://code/cb",
+URIS = [None, "", "https://good/cb", "https://good/cb2?keep=1&x=a+b", "https://good/cb3?legacy=&native&tenant=acme", "https://good/cb3?tenant=acme", "https://pub/cb", "https://pub/other", "https://tok/cb", "https://code/cb",
         "https://evil/cb", "https://good/cbx", "https://good/cb/", "https://good/c", "https://good/cb?x=1", "https://good/CB", "good/cb", "https://good/cb#frag",
         "javascript:alert(1)", "https://good/cb2", "https://evil/cb?keep=1&x=a+b", "//good/cb"]
 SCOPES = [None, "", "openid", "openid profile", "profile", "profile openid", "zzz", "openid zzz"]
